@@ -398,7 +398,7 @@ def rebuild(kind, n, witness):
             u.arm(w[2], w[3])
             w = w[1]
         try:
-            with core.time_limit(3):
+            with core.time_limit(1.0):
                 u.apply(w)
         except (Exception, core.CaseTimeout):  # noqa - a refused call may be part of a witness (it can flip hidden bits)
             pass
@@ -420,7 +420,7 @@ def execute(kind, n, witness, op, pre=None, raise_at=(), persist=None, snap=Fals
     ex.exc = None
     ex.mro = ()
     try:
-        with core.time_limit(3 if _CALL_TIMEOUTS[0] < 3 else 0.3):
+        with core.time_limit(1.0 if _CALL_TIMEOUTS[0] < 3 else 0.2):
             u.apply(op)
         ex.outcome = "ok"
     except (Exception, core.CaseTimeout) as exc:  # noqa - everything the call raises is an observation
@@ -611,6 +611,8 @@ def runs(kind, n, witness, pre, op, d=0, persistent=(), snap=False, want=None, r
     if reenter_menu:
         # a hook that itself issues a structural call (here: detaches some node) at invocation i
         for i in range(len(ex0.log)):
+            if len(reenter_menu) > n and not ex0.log[i][0].startswith("_pre"):
+                continue  # the large menu (moves) is tried at pre hooks only
             for r in reenter_menu:
                 ex = execute(kind, n, witness, op, pre, snap=snap, reenter={i: r})
                 ex.raise_at = ("reenter", i) + tuple(r)
